@@ -537,7 +537,24 @@ func protoChosenByTLS(p *Prog, fn *ssa.Function, v ssa.Value, at ssa.Instruction
 	case *ssa.Phi:
 		for i, e := range x.Edges {
 			pred := x.Block().Preds[i]
-			if !protoChosenByTLS(p, fn, e, pred.Instrs[len(pred.Instrs)-1], req, d+1) {
+			last := pred.Instrs[len(pred.Instrs)-1]
+			// the value may be chosen by the very edge that enters the phi's block (`v := "http"; if TLS != nil { v = "https" }`)
+			direct := false
+			if val, ok := constString(stripConv(e)); ok {
+				for _, t := range nts {
+					if ssa.Instruction(t.If) != last {
+						continue
+					}
+					want := t.Nil
+					if val == "https" {
+						want = t.NonNil
+					}
+					if (val == "https" || val == "http") && want.B == pred && want.To() == x.Block() {
+						direct = true
+					}
+				}
+			}
+			if !direct && !protoChosenByTLS(p, fn, e, last, req, d+1) {
 				return false
 			}
 		}
